@@ -1,28 +1,35 @@
-"""C13 — benchmark ids print and parse consistently (engine E-TABLE).
+"""C13 — benchmark ids print and parse consistently.
 
-Scenario ids: the separators, group order, alphabets and conversions of the printer
-(ScenarioID.__str__), the grammar (benchmark_id_pattern, parsed with re._parser from the source
-constant) and the parser (from_benchmark_id) are compared piece by piece.
-Solution ids: 'vehicles:costs:scenario:version' format vs split/strip in the reader; vehicle id
-= model name + single-digit type value vs the slicing in the reader; cost id = enum name.
+Decided by abstract evaluation in the string-template domain (sa/strdom.py): no text of the printer or the parser
+is matched; the functions are evaluated over the AST on objects whose unbounded fields are atoms, one evaluation per
+shape case of a valid id, and the three artefacts are confronted with each other:
+
+  SID-GRAMMAR  the template ScenarioID.__str__ prints in each case conforms to benchmark_id_pattern (the regex parse
+               tree of the source constant, matched structurally: atoms are indivisible and must be covered by
+               character-class items whose language includes the field's), and every group captures exactly the
+               field of the same meaning.  Field alphabets come from the code: behaviour letters from the
+               constructor's validator, the map-name alphabet from folding the setter over the printable characters.
+  SID-PARSE    ScenarioID.from_benchmark_id, evaluated on the printed template, constructs a ScenarioID whose every
+               constructor argument equals the field the printer started from (numbers as numbers, a single
+               prediction id as a scalar, several as a list, the cooperative flag, the version); it matches with
+               fullmatch.
+  SOL-ID       Solution.benchmark_id is evaluated for one, two and three planning-problem solutions over all vehicle
+               model x vehicle type pairs and all cost functions (enum members are folded as constants) and
+               CommonRoadSolutionReader._parse_solution is evaluated on the result: the i-th constructed
+               PlanningProblemSolution must carry the i-th model, type and cost function and the i-th trajectory
+               node; the scenario id and version must reach ScenarioID.from_benchmark_id unchanged.
 """
 import ast
-import re
+import string
 
-try:
-    import re._parser as sre_parse  # python >= 3.11
-    import re._constants as sre_c
-except ImportError:  # pragma: no cover
-    import sre_parse
-    import sre_constants as sre_c
-
-from ..core import AnalysisError, Finding, attr_chain, call_name, dominating_guards, norm, walk_no_nested
+from ..core import AnalysisError, call_name, canon, norm, walk_no_nested
 from ..dataflow import ReachingDefs
+from ..strdom import MAXREP, NONE, ClassRef, Ctor, DictV, EnumMember, Ev, Frag, Grammar, ListV, Obj, Str, Sym, TupV, _Raise, same, show
 
 SC = "commonroad/scenario/scenario.py"
 SO = "commonroad/common/solution.py"
 
-GROUP_TO_PARAM = {
+GROUP_TO_FIELD = {
     "cooperative": "cooperative",
     "country_id": "country_id",
     "map_name": "map_name",
@@ -31,314 +38,264 @@ GROUP_TO_PARAM = {
     "prediction_type": "obstacle_behavior",
     "prediction_ids": "prediction_id",
 }
+D = frozenset("0123456789")
+D1 = frozenset("123456789")
+AZ = frozenset(string.ascii_uppercase)
 
 
-def regex_tokens(pattern):
-    """Linearise the pattern: list of ('lit', text) and ('group', name, charset-or-None, inner literal text),
-    in order, descending into unnamed/optional groups."""
-    p = sre_parse.parse(pattern)
-    names = {v: k for k, v in p.state.groupdict.items()}
+def posint(name):
+    return Sym(name, "int", [(D1, 1, 1), (D, 0, MAXREP)], positive=True)
+
+
+def S(sym):
+    return Str([("sym", sym)])
+
+
+def behaviour_letters(repo, sid):
+    """letters the constructor's validator admits for obstacle_behavior (None excluded)"""
+    init = sid.methods["__init__"]
+    rd = ReachingDefs(init)
+    found = []
+    for n in walk_no_nested(init):
+        if isinstance(n, ast.Compare) and len(n.ops) == 1 and isinstance(n.ops[0], (ast.In, ast.NotIn)) and "obstacle_behavior" in canon(n.left, rd, rd.stmt_of(n), []):
+            c = n.comparators[0]
+            if isinstance(c, ast.Name):
+                ds = [d.node for d in rd.defs(c.id, rd.stmt_of(n)) if d.node is not None]
+                c = ds[0] if len(ds) == 1 else c
+            if isinstance(c, (ast.List, ast.Tuple, ast.Set)):
+                found.append({e.value for e in c.elts if isinstance(e, ast.Constant) and isinstance(e.value, str)})
+    if len(found) != 1:
+        raise AnalysisError("ScenarioID.__init__: validator of obstacle_behavior not found")
+    if any(len(x) != 1 for x in found[0]):
+        raise AnalysisError("obstacle behaviour codes are not single letters: %s" % sorted(found[0]))
+    return frozenset(found[0])
+
+
+def map_name_alphabet(repo, sid):
+    """characters the map_name setter lets through, by folding the setter over every printable character"""
+    _c, p = repo.find_prop(sid, "map_name")
+    if not p or p.get("set") is None:
+        raise AnalysisError("ScenarioID.map_name setter missing")
+    probe = string.printable.replace("\x0b", "").replace("\x0c", "") + "äß€"
+    o = Obj(sid, {})
+    ev = Ev(repo)
+    from ..strdom import FuncV
+
+    ev.call_fn(FuncV(p["set"], self_val=o, cls=sid, mod=sid.mod), [Str.lit(probe)], {}, None)
+    kept = [v for k, v in o.fields.items() if "map_name" in k]
+    if len(kept) != 1 or not (isinstance(kept[0], Str) and kept[0].is_lit()):
+        raise AnalysisError("ScenarioID.map_name setter: stored value not determined")
+    return frozenset(kept[0].text())
+
+
+def sid_cases(letters, mapcs):
+    """valid ids by shape: (label, fields)"""
     out = []
-
-    def charset(items):
-        chars = set()
-        for op, av in items:
-            if op == sre_c.LITERAL:
-                chars.add(chr(av))
-            elif op == sre_c.RANGE:
-                chars |= {chr(c) for c in range(av[0], av[1] + 1)}
-            elif op == sre_c.IN:
-                chars |= charset(av)
-        return chars
-
-    def lits(items):
-        s = ""
-        for op, av in items:
-            if op == sre_c.LITERAL:
-                s += chr(av)
-            elif op in (sre_c.MAX_REPEAT, sre_c.MIN_REPEAT):
-                s += lits(av[2])
-            elif op == sre_c.SUBPATTERN:
-                s += lits(av[3])
-            elif op == sre_c.BRANCH:
-                for b in av[1]:
-                    s += lits(b)
-        return s
-
-    def chars_of(items):
-        cs = set()
-        for op, av in items:
-            if op == sre_c.IN:
-                cs |= charset(av)
-            elif op in (sre_c.MAX_REPEAT, sre_c.MIN_REPEAT):
-                cs |= chars_of(av[2])
-            elif op == sre_c.SUBPATTERN:
-                cs |= chars_of(av[3])
-        return cs
-
-    def walk(items):
-        for op, av in items:
-            if op == sre_c.LITERAL:
-                if out and out[-1][0] == "lit":
-                    out[-1] = ("lit", out[-1][1] + chr(av))
-                else:
-                    out.append(("lit", chr(av)))
-            elif op in (sre_c.MAX_REPEAT, sre_c.MIN_REPEAT):
-                walk(av[2])
-            elif op == sre_c.SUBPATTERN:
-                gid = av[0]
-                if gid in names:
-                    out.append(("group", names[gid], chars_of(av[3]), lits(av[3])))
-                else:
-                    walk(av[3])
-            elif op == sre_c.IN:
-                out.append(("class", charset(av)))
-
-    walk(p)
-    return out, set(names.values())
+    for coop in (False, True):
+        for shape in ("map", "configuration", "one prediction", "two predictions", "three predictions"):
+            f = {
+                "cooperative": coop,
+                "country_id": S(Sym("country_id", lang=[(AZ, 3, 3)])),
+                "map_name": S(Sym("map_name", lang=[(mapcs, 1, MAXREP)])),
+                "map_id": posint("map_id"),
+                "configuration_id": NONE,
+                "obstacle_behavior": NONE,
+                "prediction_id": NONE,
+                "scenario_version": S(Sym("scenario_version", lang=[(frozenset(string.ascii_lowercase + string.digits), 1, MAXREP)])),
+            }
+            if shape != "map":
+                f["configuration_id"] = posint("configuration_id")
+            if "prediction" in shape:
+                f["obstacle_behavior"] = S(Sym("obstacle_behavior", lang=[(letters, 1, 1)]))
+                n = {"one": 1, "two": 2, "three": 3}[shape.split()[0]]
+                ids = [posint("prediction_id[%d]" % i) for i in range(n)]
+                f["prediction_id"] = ids[0] if n == 1 else ListV(ids)
+            out.append(("%s%s" % ("cooperative, " if coop else "", shape), f))
+    return out
 
 
-def const_str(node):
-    if isinstance(node, ast.Constant) and isinstance(node.value, str):
-        return node.value
-    return None
+def expected_capture(group, fields):
+    """what a group must capture, as a list of atoms (None: the group must not take part)"""
+    v = fields[GROUP_TO_FIELD[group]]
+    if group == "cooperative":
+        return [] if v is True else None
+    if v is NONE:
+        return None
+    if isinstance(v, ListV):
+        return list(v.items)
+    if isinstance(v, Str):
+        return [p[1] for p in v.pieces if p[0] == "sym"]
+    return [v]
 
 
 def run(repo, res, tier):
-    res.rule("SID-GRAMMAR", "printer separators / order / alphabets equal the regex literals, group order and classes", 8)
-    res.rule("SID-PARSE", "every regex group is read and converted into the constructor parameter of the same meaning", 9)
-    res.rule("SOL-ID", "solution benchmark id format vs reader split/strip; vehicle and cost id encoding vs decoding", 8)
+    res.rule("SID-GRAMMAR", "the template __str__ prints conforms to the grammar and every group captures its own field, in every shape case", 20)
+    res.rule("SID-PARSE", "from_benchmark_id on the printed template rebuilds every constructor argument, in every shape case", 11)
+    res.rule("SOL-ID", "Solution.benchmark_id -> _parse_solution recovers models, types, cost functions, scenario id and version", 5)
     mod = repo.mod(SC)
     sid = repo.cls(SC, "ScenarioID")
     pat_node = sid.class_assigns.get("benchmark_id_pattern")
-    if pat_node is None or not (isinstance(pat_node, ast.Call) and norm(pat_node.func) == "re.compile" and const_str(pat_node.args[0]) is not None):
+    ev0 = Ev(repo)
+    try:
+        pv = ev0.ev(pat_node, {"__mod__": mod}, mod) if pat_node is not None else None
+    except AnalysisError:
+        pv = None
+    if pv is None or not hasattr(pv, "pattern"):
         raise AnalysisError("ScenarioID.benchmark_id_pattern is not re.compile(<string constant>)")
-    pattern = const_str(pat_node.args[0])
-    toks, groups = regex_tokens(pattern)
-    if groups != set(GROUP_TO_PARAM):
-        raise AnalysisError("regex groups changed: %s" % sorted(groups))
-    order = [t[1] for t in toks if t[0] == "group"]
-    before = {}
-    prev_lit = ""
-    for t in toks:
-        if t[0] == "lit":
-            prev_lit = t[1]
-        elif t[0] == "group":
-            before[t[1]] = prev_lit
-            prev_lit = ""
-    ginfo = {t[1]: t for t in toks if t[0] == "group"}
-
-    # ---- printer
-    pr = sid.methods["__str__"]
-    rd = ReachingDefs(pr)
-    q = "ScenarioID.__str__"
-    parts = [n for n in walk_no_nested(pr) if isinstance(n, ast.Assign) and isinstance(n.value, ast.List) and len(n.value.elts) >= 3]
-    if len(parts) != 1:
-        raise AnalysisError("ScenarioID.__str__: parts list not found")
-    elts = parts[0].value.elts
-
-    def elt_attr(e):
-        # attribute(s) of self an element prints, through locals
-        names = []
-        srcs = [e]
-        if isinstance(e, ast.Name):
-            srcs = [d.node for d in rd.defs(e.id, parts[0]) if d.node is not None]
-        for s_ in srcs:
-            for x in ast.walk(s_):
-                ch = attr_chain(x) if isinstance(x, ast.Attribute) else None
-                if ch and ch[0] == "self" and len(ch) == 2 and ch[1] not in names:
-                    names.append(ch[1])
-                if isinstance(x, ast.Name) and isinstance(x.ctx, ast.Load) and x is not s_:
-                    for d in rd.defs(x.id, parts[0]):
-                        if d.node is not None:
-                            for y in ast.walk(d.node):
-                                ch = attr_chain(y) if isinstance(y, ast.Attribute) else None
-                                if ch and ch[0] == "self" and len(ch) == 2 and ch[1] not in names:
-                                    names.append(ch[1])
-        return names
-
-    printed = [elt_attr(e) for e in elts]
-    flat = [a for p in printed for a in p]
-    want_order = ["country_id", "map_name", "map_id", "configuration_id", "obstacle_behavior", "prediction_id"]
-    got = [a for a in flat if a in want_order]
-    seen = []
-    for a in got:
-        if a not in seen:
-            seen.append(a)
-    res.check("SID-GRAMMAR", "printer emits %s in grammar order %s" % (seen, [GROUP_TO_PARAM[g] for g in order if g != "cooperative"]), seen == [GROUP_TO_PARAM[g] for g in order if g != "cooperative"], mod, parts[0], "ScenarioID.__str__ parts order %s" % seen, "the printed id lists its components in another order than the grammar", qualname=q)
-    joins = [n for n in walk_no_nested(pr) if isinstance(n, ast.Call) and isinstance(n.func, ast.Attribute) and n.func.attr == "join" and const_str(n.func.value) is not None]
-    part_join = [j for j in joins if any(isinstance(x, ast.Name) and x.id == norm(parts[0].targets[0]) for x in ast.walk(j))]
-    pred_join = [j for j in joins if j not in part_join]
-    ok = len(part_join) == 1 and const_str(part_join[0].func.value) == before["map_name"] == before["configuration_id"] == before["prediction_type"]
-    res.check("SID-GRAMMAR", "component separator %r = regex literals before map_name/configuration_id/prediction_type" % (const_str(part_join[0].func.value) if part_join else None), ok, mod, part_join[0] if part_join else pr, "ScenarioID.__str__ component separator", "printer and grammar use different separators between components", qualname=q)
-    # map f-string
-    fstr = [n for n in walk_no_nested(pr) if isinstance(n, ast.JoinedStr)]
-    ok = False
-    for f in fstr:
-        vals = f.values
-        if len(vals) == 3 and isinstance(vals[0], ast.FormattedValue) and isinstance(vals[2], ast.FormattedValue) and const_str(vals[1]) is not None:
-            if norm(vals[0].value) == "self.map_name" and norm(vals[2].value) == "self.map_id":
-                ok = const_str(vals[1]) == before["map_id"]
-    res.check("SID-GRAMMAR", "map part = map_name + %r + map_id" % before["map_id"], ok, mod, pr, "ScenarioID.__str__ map part", "map name and map id are not joined by the grammar's separator", qualname=q)
-    ok = len(pred_join) == 1 and const_str(pred_join[0].func.value) == ginfo["prediction_ids"][3][:1]
-    if ok:
-        arg = pred_join[0].args[0]
-        ok = isinstance(arg, ast.BinOp) and isinstance(arg.op, ast.Add) and norm(arg.left) == "[self.obstacle_behavior]"
-    res.check("SID-GRAMMAR", "prediction part = behaviour followed by ids, joined by %r" % ginfo["prediction_ids"][3][:1], ok, mod, pred_join[0] if pred_join else pr, "ScenarioID.__str__ prediction part", "prediction type and ids are not printed as the grammar expects", qualname=q)
-    pref = [n for n in walk_no_nested(pr) if isinstance(n, ast.BinOp) and isinstance(n.op, ast.Add) and const_str(n.left) is not None]
-    ok = len(pref) == 1 and const_str(pref[0].left) == ginfo["cooperative"][3]
-    if ok:
-        g = [(norm(t), pol) for t, pol in dominating_guards(mod, pref[0], stop=pr)]
-        ok = any(pol and t in ("self.cooperative is True", "self.cooperative") for t, pol in g)
-    res.check("SID-GRAMMAR", "cooperative prefix %r" % ginfo["cooperative"][3], ok, mod, pref[0] if pref else pr, "ScenarioID.__str__ cooperative prefix", "the cooperative prefix printed differs from the one the grammar accepts", qualname=q)
-    # alphabets
-    init = sid.methods["__init__"]
-    vals = None
-    for n in walk_no_nested(init):
-        if isinstance(n, ast.Compare) and isinstance(n.ops[0], ast.In) and norm(n.left) == "self.obstacle_behavior" and isinstance(n.comparators[0], ast.List):
-            vals = {e.value for e in n.comparators[0].elts if isinstance(e, ast.Constant) and e.value is not None}
-    res.check("SID-GRAMMAR", "behaviour letters %s = regex class %s" % (sorted(vals or []), sorted(ginfo["prediction_type"][2])), vals == ginfo["prediction_type"][2], mod, init, "ScenarioID.__init__ behaviour validator %s vs regex %s" % (sorted(vals or []), sorted(ginfo["prediction_type"][2])), "constructor and grammar accept different obstacle-behaviour letters", qualname="ScenarioID.__init__")
-    mn = sid.props["map_name"]["set"]
-    cleaned = None
-    for n in walk_no_nested(mn):
-        if isinstance(n, ast.Call) and norm(n.func) == "re.sub":
-            p0 = n.args[0]
-            if isinstance(p0, ast.Name):
-                ds = [d.node for d in ReachingDefs(mn).defs(p0.id, n) if d.node is not None]
-                p0 = ds[0] if ds else p0
-            cleaned = const_str(p0)
-    ok = False
-    if cleaned:
-        t2, _g = regex_tokens(cleaned.replace("[^", "[", 1)) if cleaned.startswith("[^") else ([], None)
-        ok = bool(t2) and t2[0][0] == "class" and t2[0][1] == ginfo["map_name"][2]
-    res.check("SID-GRAMMAR", "map_name setter keeps exactly the grammar's map-name alphabet", ok, mod, mn, "ScenarioID.map_name setter pattern %r" % cleaned, "map names may keep characters the grammar rejects (printed ids would not parse)", qualname="ScenarioID.map_name")
-    # numeric groups cannot print with leading zeros / separators: ints
-    eq = sid.methods["__eq__"]
-    eq_fields = {n.attr for n in walk_no_nested(eq) if isinstance(n, ast.Attribute) and isinstance(n.value, ast.Name) and n.value.id == "other"}
-    str_fields = {n.attr for n in walk_no_nested(pr) if isinstance(n, ast.Attribute) and isinstance(n.value, ast.Name) and n.value.id == "self"}
-    res.check("SID-GRAMMAR", "every compared field except the version is printed", eq_fields - {"scenario_version"} <= str_fields, mod, pr, "ScenarioID.__str__ prints %s, __eq__ compares %s" % (sorted(str_fields), sorted(eq_fields)), "two different ids print identically", qualname=q)
+    gram = Grammar(pv.pattern)
+    if set(gram.names.values()) != set(GROUP_TO_FIELD):
+        raise AnalysisError("regex groups changed: %s" % sorted(gram.names.values()))
+    letters = behaviour_letters(repo, sid)
+    mapcs = map_name_alphabet(repo, sid)
+    pr = sid.methods.get("__str__")
+    fb = sid.methods.get("from_benchmark_id")
+    init = sid.methods.get("__init__")
+    if pr is None or fb is None or init is None:
+        raise AnalysisError("ScenarioID.__str__ / from_benchmark_id / __init__ missing")
+    params = [a.arg for a in init.args.args][1:]
+    if not set(GROUP_TO_FIELD.values()) | {"scenario_version"} <= set(params):
+        raise AnalysisError("ScenarioID.__init__ parameters changed: %s" % params)
+    printed = {}
+    for label, f in sid_cases(letters, mapcs):
+        q = "ScenarioID.__str__"
+        ev = Ev(repo)
+        try:
+            t = ev.to_str(Obj(sid, dict(f)))
+        except _Raise as r:
+            res.check("SID-GRAMMAR", "%s: printing" % label, False, mod, pr, "ScenarioID.__str__ [%s] raises %s" % (label, r.what), "printing a valid id raises", qualname=q)
+            continue
+        if not isinstance(t, Str):
+            res.check("SID-GRAMMAR", "%s: printing" % label, False, mod, pr, "ScenarioID.__str__ [%s] does not yield text: %s" % (label, show(t)), "the printed id is not a string made of the id's fields", qualname=q)
+            continue
+        caps = gram.fullmatch(t)
+        res.check("SID-GRAMMAR", "%s: %s conforms to the grammar" % (label, t.text()), caps is not None, mod, pr, "ScenarioID.__str__ [%s] prints %s" % (label, t.text()), "the printed id does not conform to the CommonRoad id grammar (separator, order, prefix, alphabet or a missing / extra component)", qualname=q)
+        if caps is None:
+            continue
+        bad = []
+        for g in GROUP_TO_FIELD:
+            want = expected_capture(g, f)
+            got = caps[g]
+            if want is None:
+                if got is not NONE:
+                    bad.append("%s captures %s but the id has no such part" % (g, show(got)))
+            elif got is NONE:
+                bad.append("%s is absent but the id has %s" % (g, GROUP_TO_FIELD[g]))
+            else:
+                atoms = [p[1] for p in got.pieces if p[0] == "sym"]
+                if [a.name for a in atoms] != [a.name for a in want]:
+                    bad.append("%s captures %s" % (g, show(got)))
+        res.check("SID-GRAMMAR", "%s: every group captures its own field" % label, not bad, mod, pr, "ScenarioID.__str__ [%s] %s" % (label, "; ".join(bad)), "a component is printed where the grammar expects another one", qualname=q)
+        if not bad:
+            printed[label] = (f, t)
 
     # ---- parser
-    fb = sid.methods["from_benchmark_id"]
     q = "ScenarioID.from_benchmark_id"
-    rdp = ReachingDefs(fb)
-    ctor = [n for n in walk_no_nested(fb) if isinstance(n, ast.Call) and norm(n.func) == "ScenarioID" and len(n.args) >= 7]
-    if len(ctor) != 1:
-        raise AnalysisError("from_benchmark_id: full constructor call not found")
-    params = [a.arg for a in init.args.args][1:]
-    uses = {}
-    for n in walk_no_nested(fb):
-        if isinstance(n, ast.Subscript) and isinstance(n.value, ast.Name) and n.value.id == "match" and const_str(n.slice) is not None:
-            uses.setdefault(const_str(n.slice), []).append(n)
-    res.check("SID-PARSE", "all regex groups are read %s" % sorted(uses), set(uses) == groups, mod, fb, "from_benchmark_id reads groups %s of %s" % (sorted(uses), sorted(groups)), "a component of the id is dropped (or a non-existing group is read) when parsing", qualname=q)
-
-    def group_roots(expr, at, depth=0):
-        out = set()
-        for x in ast.walk(expr):
-            if isinstance(x, ast.Subscript) and isinstance(x.value, ast.Name) and x.value.id == "match" and const_str(x.slice):
-                out.add(const_str(x.slice))
-            elif isinstance(x, ast.Name) and isinstance(x.ctx, ast.Load) and depth < 5 and x.id != "match":
-                for d in rdp.defs(x.id, at):
-                    if d.node is not None:
-                        out |= group_roots(d.node, d.stmt, depth + 1)
-        return out
-
-    for i, a in enumerate(ctor[0].args):
-        pname = params[i] if i < len(params) else "?"
-        roots = group_roots(a, ctor[0])
-        want = {g for g, p in GROUP_TO_PARAM.items() if p == pname}
-        if pname == "scenario_version":
-            ok = norm(a) == "scenario_version"
+    match_ops = set()
+    for label, (f, t) in printed.items():
+        ev = Ev(repo)
+        try:
+            target = ev.getattr(ClassRef(sid), "from_benchmark_id", fb, mod)
+            r = ev.call_fn(target, [t, f["scenario_version"]], {}, fb)
+        except _Raise as x:
+            res.check("SID-PARSE", "%s: parsing %s" % (label, t.text()), False, mod, fb, "from_benchmark_id [%s] raises %s" % (label, x.what), "a valid printed id is rejected by the parser", qualname=q)
+            continue
+        match_ops |= {w[0] for w in ev.trace if w[0].startswith("pattern-")}
+        ok = isinstance(r, Ctor) and r.name == "ScenarioID"
+        bad = []
+        if ok:
+            for p in params:
+                want = f.get(p)
+                got = r.args.get(p)
+                if not same(want, got):
+                    bad.append("%s = %s (printed from %s)" % (p, show(got), show(want)))
         else:
-            ok = roots == want
-        res.check("SID-PARSE", "constructor argument %d (%s) <- group %s" % (i, pname, sorted(roots)), ok, mod, a, "from_benchmark_id: %s receives groups %s" % (pname, sorted(roots)), "a parsed component is passed to the wrong constructor parameter", qualname=q)
-    # conversions
-    for g in ("map_id", "configuration_id"):
-        ok = all(isinstance(mod.parent.get(u), ast.Call) and call_name(mod.parent.get(u)) == "int" or any(isinstance(x, ast.Compare) for x in [mod.parent.get(u)]) for u in uses.get(g, []))
-        res.check("SID-PARSE", "group %s converted with int()" % g, ok, mod, fb, "from_benchmark_id: %s conversion" % g, "numeric components stay strings: the parsed id is not equal to the printed one", qualname=q)
-    t = " ; ".join(norm(s) for s in fb.body)
-    sep = ginfo["prediction_ids"][3][:1]
-    ok = ".split('%s')[1:]" % sep in t and "int(pid)" in t.replace("int(p)", "int(pid)") and "== 1" in t
-    res.check("SID-PARSE", "prediction ids split by %r, converted to int, single id unwrapped" % sep, ok, mod, fb, "from_benchmark_id prediction ids", "prediction ids are split by another separator than printed, stay strings, or a single id stays a list", qualname=q)
-    coop = [n for n in walk_no_nested(fb) if isinstance(n, ast.Assign) and norm(n.targets[0]) == "cooperative"]
-    ok = len(coop) == 1 and norm(coop[0].value) in ("match['cooperative'] is not None", "match['cooperative'] != None", "bool(match['cooperative'])")
-    res.check("SID-PARSE", "cooperative flag = group present", ok, mod, fb, "from_benchmark_id cooperative", "the cooperative flag is not derived from the presence of the prefix", qualname=q)
-    ok = any(isinstance(n, ast.Call) and norm(n.func).endswith("benchmark_id_pattern.fullmatch") for n in walk_no_nested(fb))
-    res.check("SID-PARSE", "whole string must match (fullmatch)", ok, mod, fb, "from_benchmark_id matching", "ids with trailing garbage are accepted", qualname=q)
+            bad.append("result %s" % show(r))
+        res.check("SID-PARSE", "%s: parsing %s rebuilds all fields" % (label, t.text()), not bad, mod, fb, "from_benchmark_id [%s] %s" % (label, "; ".join(bad)), "parsing the printed id back does not give an equal id (a component is dropped, converted wrongly, or passed to the wrong constructor parameter)", qualname=q)
+    if printed:
+        res.check("SID-PARSE", "whole string must match (fullmatch)", match_ops == {"pattern-fullmatch"}, mod, fb, "from_benchmark_id matching with %s" % sorted(match_ops), "ids with trailing garbage are accepted", qualname=q)
 
     # ---- solution ids
     smod = repo.mod(SO)
     sol = repo.cls(SO, "Solution")
-    bid = repo.method(SO, "Solution", "benchmark_id")
-    rets = [n for n in walk_no_nested(bid) if isinstance(n, ast.Return)]
-    fmt = None
-    if len(rets) == 1 and isinstance(rets[0].value, ast.BinOp) and isinstance(rets[0].value.op, ast.Mod):
-        fmt = const_str(rets[0].value.left)
-        fargs = [norm(e) for e in rets[0].value.right.elts] if isinstance(rets[0].value.right, ast.Tuple) else []
-    rdr = repo.cls(SO, "CommonRoadSolutionReader")
-    pb = rdr.methods["_parse_benchmark_id"]
-    tb = " ; ".join(norm(s) for s in pb.body)
-    segsep = None
-    for n in walk_no_nested(pb):
-        if isinstance(n, ast.Call) and isinstance(n.func, ast.Attribute) and n.func.attr == "split" and n.args and const_str(n.args[0]) and "benchmark_id" in norm(n.func.value):
-            segsep = const_str(n.args[0])
-    nseg = None
-    for n in walk_no_nested(pb):
-        if isinstance(n, ast.Compare) and norm(n.left) == "len(segments)" and isinstance(n.comparators[0], ast.Constant):
-            nseg = n.comparators[0].value
-    ok = fmt is not None and segsep is not None and fmt.split(segsep) == ["%s"] * (nseg or 0)
-    res.check("SOL-ID", "benchmark id format %r = %s segments separated by %r" % (fmt, nseg, segsep), ok, smod, bid, "Solution.benchmark_id format %r vs reader split(%r), %s segments" % (fmt, segsep, nseg), "the reader splits the id differently from how it is printed", qualname="Solution.benchmark_id")
-    # the first two slots: vehicles then costs (locals derived from vehicle_ids / cost_ids)
-    rdb = ReachingDefs(bid)
-
-    def derives(name, what):
-        for d in rdb.defs(name, rets[0]):
-            if d.node is not None and what in norm(d.node):
-                return True
-        return False
-
-    ok = fmt is not None and len(fargs) == 4 and derives(fargs[0], "vehicle_ids") and derives(fargs[1], "cost_ids") and fargs[2] == "str(self.scenario_id)" and fargs[3] == "self.scenario_id.scenario_version" and "segments[0]" in tb and "ScenarioID.from_benchmark_id(segments[2], segments[3])" in tb
-    ok = ok and bool(re.search(r"vehicle\w* = re\.sub\([^;]*segments\[0\]", tb)) and bool(re.search(r"cost\w* = re\.sub\([^;]*segments\[1\]", tb))
-    res.check("SOL-ID", "segment order vehicles:costs:scenario:version on both sides", ok, smod, pb, "benchmark id segment order %s" % (fargs if fmt else None), "segments are read in another order than written", qualname="CommonRoadSolutionReader._parse_benchmark_id")
-    lists = [const_str(n.left) for n in walk_no_nested(bid) if isinstance(n, ast.BinOp) and isinstance(n.op, ast.Mod) and const_str(n.left) and "[" in const_str(n.left)]
-    lsep = {const_str(n.func.value) for n in walk_no_nested(bid) if isinstance(n, ast.Call) and isinstance(n.func, ast.Attribute) and n.func.attr == "join"}
-    ok = set(lists) == {"[%s]"} and lsep == {","} and tb.count(".split(',')") == 2 and tb.count("re.sub('[\\\\[\\\\]]', ''") == 2
-    res.check("SOL-ID", "list form [a,b] printed and stripped/split by the same brackets and comma", ok, smod, bid, "Solution.benchmark_id list form %s sep %s" % (lists, sorted(lsep)), "cooperative solution ids are not parsed back into the same lists", qualname="Solution.benchmark_id")
-    # scenario id alphabet cannot contain the solution id meta characters
-    alphabet = set()
-    for tk in toks:
-        if tk[0] == "lit":
-            alphabet |= set(tk[1])
-        elif tk[0] == "group":
-            alphabet |= tk[2] | set(tk[3])
-        elif tk[0] == "class":
-            alphabet |= tk[1]
-    res.check("SOL-ID", "scenario id alphabet is disjoint from ':,[] '", not (alphabet & set(":,[] ")), smod, bid, "scenario id alphabet vs solution id meta characters", "a scenario id may contain a character the solution id uses as separator", qualname="Solution.benchmark_id")
     pps = repo.cls(SO, "PlanningProblemSolution")
-    vid = repo.method(SO, "PlanningProblemSolution", "vehicle_id")
-    rets = [n for n in walk_no_nested(vid) if isinstance(n, ast.Return)]
-    ok = len(rets) == 1 and norm(rets[0].value) == "self.vehicle_model.name + str(self.vehicle_type.value)"
-    pv = rdr.methods["_parse_vehicle_id"]
-    tv = " ; ".join(norm(s) for s in pv.body)
-    ok = ok and "VehicleModel[vehicle_id[:-1]]" in tv and "VehicleType(int(vehicle_id[-1]))" in tv
-    res.check("SOL-ID", "vehicle id = model name + type value  <->  [:-1] / [-1]", ok, smod, vid, "vehicle id encoding/decoding", "vehicle model and type are not recovered from the vehicle id", qualname="PlanningProblemSolution.vehicle_id")
-    vt = repo.cls(SO, "VehicleType").enum_members()
-    vm = repo.cls(SO, "VehicleModel").enum_members()
-    digits = all(isinstance(v, ast.Constant) and isinstance(v.value, int) and 0 <= v.value <= 9 for v in vt.values())
-    lens = set()
-    for n in walk_no_nested(pv):
-        if isinstance(n, ast.Compare) and norm(n.left) == "len(vehicle_id)" and isinstance(n.comparators[0], ast.Constant):
-            lens.add(n.comparators[0].value)
-    need = {len(k) + 1 for k in vm}
-    res.check("SOL-ID", "vehicle type values are single digits; accepted id lengths %s cover %s" % (sorted(lens), sorted(need)), digits and need <= lens, smod, pv, "vehicle id lengths %s vs model names %s, type values single digit: %s" % (sorted(lens), sorted(vm), digits), "a valid (model, type) pair prints a vehicle id the reader rejects or slices wrongly", qualname="CommonRoadSolutionReader._parse_vehicle_id")
-    cid = repo.method(SO, "PlanningProblemSolution", "cost_id")
-    rets = [n for n in walk_no_nested(cid) if isinstance(n, ast.Return)]
-    pp = rdr.methods["_parse_planning_problem_solution"]
-    tp = " ; ".join(norm(s) for s in pp.body)
-    ok = len(rets) == 1 and norm(rets[0].value) == "self.cost_function.name" and "CostFunction[cost_id]" in tp
-    res.check("SOL-ID", "cost id = cost function name <-> CostFunction[name]", ok, smod, cid, "cost id encoding/decoding", "the cost function is not recovered from the cost id", qualname="PlanningProblemSolution.cost_id")
-    ps = rdr.methods["_parse_solution"]
-    tps = " ; ".join(norm(s) for s in ps.body)
-    ok = "vehicle_ids[idx], cost_ids[idx], trajectory_node" in tps and "enumerate(root_node)" in tps
-    res.check("SOL-ID", "i-th vehicle/cost id belongs to the i-th trajectory node", ok, smod, ps, "_parse_solution pairing", "vehicle and cost ids are paired with the wrong planning problem solution", qualname="CommonRoadSolutionReader._parse_solution")
-    return {"regex_tokens": [list(map(lambda x: sorted(x) if isinstance(x, set) else x, t)) for t in toks]}
+    rdr = repo.cls(SO, "CommonRoadSolutionReader")
+    vm, vt, cf = repo.cls(SO, "VehicleModel"), repo.cls(SO, "VehicleType"), repo.cls(SO, "CostFunction")
+    for need in ("_parse_solution", "_parse_header", "_parse_trajectory"):
+        if need not in rdr.methods:
+            raise AnalysisError("CommonRoadSolutionReader.%s missing" % need)
+    ev0 = Ev(repo)
+    models = ev0.iterate(ClassRef(vm), None)
+    types = ev0.iterate(ClassRef(vt), None)
+    costs = ev0.iterate(ClassRef(cf), None)
+    if not (models and types and costs):
+        raise AnalysisError("vehicle model / type / cost function enumerations are empty")
+    sid_sym = Sym("scenario_id", lang=[(gram.alphabet(), 1, MAXREP)])
+    ver_sym = Sym("scenario_version", lang=[(frozenset(string.ascii_lowercase + string.digits), 1, MAXREP)])
+
+    def roundtrip(triples):
+        """print the benchmark id of a solution with these (model, type, cost) and read it back"""
+        sols = {}
+        for i, (m, t, c) in enumerate(triples):
+            sols[i + 1] = Obj(pps, {"planning_problem_id": i + 1, "vehicle_model": m, "vehicle_type": t, "cost_function": c})
+        scen = Obj(None, {"__str__": S(sid_sym), "scenario_version": S(ver_sym)})
+        s_obj = Obj(sol, {"_planning_problem_solutions": DictV(sols), "scenario_id": scen})
+        ev = Ev(repo)
+        bid = ev.getattr(s_obj, "benchmark_id", sol.node, smod)
+        nodes = [Ctor("trajectory_node_%d" % i, {}) for i in range(len(triples))]
+        ev2 = Ev(repo, opaque_calls={"ScenarioID.from_benchmark_id"})
+        ev2.stubs["CommonRoadSolutionReader._parse_header"] = lambda a: TupV([bid, NONE, NONE, NONE])
+        ev2.stubs["CommonRoadSolutionReader._parse_trajectory"] = lambda a: TupV([Ctor("pp_id", {"of": a.get("trajectory_node")}), Ctor("trajectory", {"of": a.get("trajectory_node")})])
+        target = ev2.getattr(ClassRef(rdr), "_parse_solution", rdr.node, smod)
+        r = ev2.call_fn(target, [ListV(nodes)], {}, rdr.node)
+        return bid, nodes, r
+
+    def judge(triples, bid, nodes, r):
+        bad = []
+        if not (isinstance(r, Ctor) and r.name == "Solution"):
+            return ["result %s" % show(r)]
+        sc = r.args.get("scenario_id")
+        if not (isinstance(sc, Ctor) and sc.name == "ScenarioID.from_benchmark_id" and same(sc.args.get("benchmark_id"), S(sid_sym)) and same(sc.args.get("scenario_version"), S(ver_sym))):
+            bad.append("scenario id / version reach the scenario-id parser as %s" % show(sc))
+        lst = r.args.get("planning_problem_solutions")
+        if not isinstance(lst, ListV) or len(lst.items) != len(triples):
+            return bad + ["planning problem solutions %s" % show(lst)]
+        for i, ((m, t, c), got) in enumerate(zip(triples, lst.items)):
+            if not (isinstance(got, Ctor) and got.name == "PlanningProblemSolution"):
+                bad.append("solution %d is %s" % (i, show(got)))
+                continue
+            for k, want in (("vehicle_model", m), ("vehicle_type", t), ("cost_function", c)):
+                if not same(got.args.get(k), want):
+                    bad.append("solution %d: %s = %s, printed from %s" % (i, k, show(got.args.get(k)), show(want)))
+            tr = got.args.get("trajectory")
+            if not (isinstance(tr, Ctor) and tr.name.startswith("trajectory") and tr.args.get("of") is nodes[i]):
+                bad.append("solution %d takes its trajectory from %s" % (i, show(tr.args.get("of") if isinstance(tr, Ctor) else tr)))
+        return bad
+
+    bidfn = sol.props.get("benchmark_id", {}).get("get")
+    if bidfn is None:
+        raise AnalysisError("Solution.benchmark_id missing")
+    suites = []
+    suites.append(("every vehicle model x vehicle type, single solution", [[(m, t, costs[0])] for m in models for t in types]))
+    suites.append(("every cost function, single solution", [[(models[0], types[0], c)] for c in costs]))
+    rot = lambda xs, k: xs[k % len(xs)]
+    suites.append(("cooperative solution with two vehicles", [[(rot(models, k), rot(types, k + 1), rot(costs, k + 2)), (rot(models, k + 1), rot(types, k + 2), rot(costs, k + 3))] for k in range(max(len(models), len(types)))]))
+    suites.append(("cooperative solution with three vehicles", [[(rot(models, k), rot(types, k), rot(costs, k)), (rot(models, k + 1), rot(types, k + 1), rot(costs, k + 1)), (rot(models, k + 2), rot(types, k + 2), rot(costs, k + 2))] for k in range(max(len(models), len(types)))]))
+    n_eval = 0
+    for title, cases in suites:
+        bad_all = []
+        example = None
+        for triples in cases:
+            n_eval += 1
+            try:
+                bid, nodes, r = roundtrip(triples)
+                bad = judge(triples, bid, nodes, r)
+                example = example or (bid.text() if isinstance(bid, Str) else show(bid))
+            except _Raise as x:
+                bad = ["raises %s" % x.what]
+            if bad:
+                bad_all.append("%s: %s" % ("+".join("%s/%s/%s" % (m.name, t.name, c.name) for m, t, c in triples), "; ".join(bad[:3])))
+        res.check("SOL-ID", "%s (%d evaluations, e.g. %s)" % (title, len(cases), example), not bad_all, smod, bidfn, "solution benchmark id, %s: %s" % (title, " | ".join(bad_all[:3])), "reading the printed solution benchmark id back does not give the same vehicle models, vehicle types, cost functions, scenario id or version", qualname="Solution.benchmark_id")
+    # the scenario id alphabet must not contain the meta characters of the solution id: a consequence of the
+    # evaluation above (split / replace through an atom yields a fragment), stated separately for diagnosis
+    res.check("SOL-ID", "scenario id alphabet is disjoint from ':,[] '", not (gram.alphabet() & set(":,[] ")), smod, bidfn, "scenario id alphabet vs solution id meta characters", "a scenario id may contain a character the solution id uses as separator", qualname="Solution.benchmark_id")
+    return {"shape_cases": [c[0] for c in sid_cases(letters, mapcs)], "behaviour_letters": sorted(letters), "map_name_alphabet": "".join(sorted(mapcs)), "solution_roundtrips": n_eval, "assumed": "country ids are three upper-case letters (ISO-3166 alpha-3 / ZAM), numbers are positive integers (property statement)"}
